@@ -244,8 +244,7 @@ func runC06(cfg runCfg) error {
 			}
 			seqs[strings.Join(rel, ">")] = true
 			b, e := fmt.Sprint(run.Resp.Data), errorMultiset(run.Resp.Errors)
-			if limited { // when the limit is hit, which step reports it may vary; the response must still be error-only
-				e = fmt.Sprint(len(run.Resp.Errors) > 0)
+			if limited { // when the limit is hit the response must be error-only, with the same errors whichever step hits it
 				if run.Resp.Data != nil && run.Resp.Data.Kind != "null" && len(run.Resp.Errors) > 0 && strings.Contains(run.Resp.Body, "exceeded max requests") {
 					okBytes, detail = false, "limit exceeded but data present: "+b
 				}
